@@ -613,3 +613,30 @@ def evValid (X : Contract) : Ev → Bool
   | .renew => X.status == .active && X.ver == .v2
 
 end Hostd.Chain
+
+namespace Hostd.Chain
+
+/-- the event a block's changes carry for contract `(ver,id)` when connected (`revert = false`) or
+disconnected (`revert = true`); `none` when the block does not touch the contract -/
+def eventFor (revert : Bool) (ver : Ver) (id : Nat) (ch : Changes) : Option Ev :=
+  let rv (n : Nat) : Ev := if revert then .revise n 0 else .revise 0 n
+  match ver with
+  | .v1 =>
+    if ch.form1.contains id then some (.form 0)
+    else match ch.rev1.find? (·.1 == id) with
+      | some x => some (rv x.2)
+      | none =>
+        if ch.succ1.contains id then some .succ
+        else if ch.fail1.contains id then some .fail else none
+  | .v2 =>
+    match ch.form2.find? (·.1 == id) with
+    | some x => some (.form x.2)
+    | none =>
+      match ch.rev2.find? (·.1 == id) with
+      | some x => some (rv x.2)
+      | none =>
+        if ch.succ2.contains id then some .succ
+        else if ch.renew2.contains id then some .renew
+        else if ch.fail2.contains id then some .fail else none
+
+end Hostd.Chain
